@@ -135,6 +135,17 @@ func (runInfo *runInfoStruct) funcExpr() {
 	}
 }
 
+// goCall is the body of every goroutine started by a script `go` statement.
+// Outside debug mode a panic in the called function (a Go function that
+// panics, a nil function value) must not crash the host program: there is no
+// caller left to report it to, so it is dropped.
+func (options *Options) goCall(call func()) {
+	if !options.Debug {
+		defer func() { recover() }()
+	}
+	call()
+}
+
 // anonCallExpr handles ast.AnonCallExpr which calls a function anonymously
 func (runInfo *runInfoStruct) anonCallExpr() {
 	anonCallExpr := runInfo.expr.(*ast.AnonCallExpr)
@@ -216,13 +227,13 @@ func (runInfo *runInfoStruct) callExpr() {
 	// useCallSlice lets us know to use CallSlice instead of Call because of the format of the args
 	if useCallSlice {
 		if callExpr.Go {
-			go f.CallSlice(args)
+			go runInfo.options.goCall(func() { f.CallSlice(args) })
 			return
 		}
 		rvs = f.CallSlice(args)
 	} else {
 		if callExpr.Go {
-			go f.Call(args)
+			go runInfo.options.goCall(func() { f.Call(args) })
 			return
 		}
 		rvs = f.Call(args)
@@ -300,17 +311,18 @@ func (runInfo *runInfoStruct) callVMFunctionDirect(f reflect.Value, callExpr *as
 	runInfo.rv = nilValue
 
 	if callExpr.Go {
+		ctx := runInfo.ctx
 		switch {
 		case fn0 != nil:
-			go fn0(runInfo.ctx)
+			go runInfo.options.goCall(func() { fn0(ctx) })
 		case fn1 != nil:
-			go fn1(runInfo.ctx, args[0])
+			go runInfo.options.goCall(func() { fn1(ctx, args[0]) })
 		case fn2 != nil:
-			go fn2(runInfo.ctx, args[0], args[1])
+			go runInfo.options.goCall(func() { fn2(ctx, args[0], args[1]) })
 		case fn3 != nil:
-			go fn3(runInfo.ctx, args[0], args[1], args[2])
+			go runInfo.options.goCall(func() { fn3(ctx, args[0], args[1], args[2]) })
 		case fn4 != nil:
-			go fn4(runInfo.ctx, args[0], args[1], args[2], args[3])
+			go runInfo.options.goCall(func() { fn4(ctx, args[0], args[1], args[2], args[3]) })
 		}
 		return true
 	}
